@@ -44,6 +44,44 @@ pub const INSTANTS: [&str; 34] = [
     "2016-12-31 23:59:59.999 +0530",
 ];
 
+/// DST zones whose transitions are enumerated in the thorough tier (whole-hour, half-hour,
+/// two-hour and negative DST, a date-line change)
+const DST_ZONES: [&str; 12] = [
+    "America/New_York", "Europe/Berlin", "Australia/Lord_Howe", "Pacific/Chatham", "Antarctica/Troll", "Europe/Dublin", "America/Havana", "Africa/Casablanca", "Australia/Sydney", "America/Santiago", "Asia/Tehran", "Pacific/Apia",
+];
+
+/// the fixed alphabet, plus (thorough) every offset of a fixed list around every DST transition
+/// of 2011–2012 and 2023–2024 in the DST zones, written as UTC instants
+pub fn instants(thorough: bool) -> Vec<&'static str> {
+    let mut v: Vec<&'static str> = INSTANTS.to_vec();
+    if !thorough {
+        return v;
+    }
+    let offsets_ms: [i64; 9] = [-3_600_500, -1_800_000, -1_000, -1, 0, 1_000, 1_799_750, 3_599_000, 3_601_000];
+    let mut seen = std::collections::BTreeSet::new();
+    for zone in DST_ZONES {
+        let Ok(tz) = jiff::tz::db().get(zone) else { continue };
+        for (from, to) in [("2011-01-01T00:00:00Z", "2013-01-01T00:00:00Z"), ("2023-01-01T00:00:00Z", "2025-01-01T00:00:00Z")] {
+            let start: jiff::Timestamp = from.parse().unwrap();
+            let end: jiff::Timestamp = to.parse().unwrap();
+            for tr in tz.following(start) {
+                if tr.timestamp() >= end {
+                    break;
+                }
+                for off in offsets_ms {
+                    let ts = tr.timestamp().as_millisecond() + off;
+                    if seen.insert(ts) {
+                        let t = jiff::Timestamp::from_millisecond(ts).unwrap();
+                        let text = t.strftime("%Y-%m-%d %H:%M:%S%.f UTC").to_string();
+                        v.push(Box::leak(text.into_boxed_str()));
+                    }
+                }
+            }
+        }
+    }
+    v
+}
+
 const MAGS: [&str; 11] = ["1", "-1", "0.5", "-0.5", "1.000000001", "1e6", "-1e6", "1e100", "1e-9", "0.1234567891", "(1-1)"];
 
 fn ns_of(v: &Value) -> Option<i128> {
@@ -145,11 +183,13 @@ pub fn check(rep: &mut Report) {
             return;
         }
     };
+    let all_instants = instants(rep.tier == Tier::Thorough);
+    let inst = &all_instants;
     let mut ev = Evaluator::new(base.clone());
     // instants: must parse; reference ns from the parsed value itself (jiff), cross-checked for
     // the UTC ones against a proleptic Gregorian day count
     let mut t_ns: Vec<i128> = vec![];
-    for t in INSTANTS {
+    for t in inst.iter().copied() {
         ev.reset();
         let r = ev.eval(&format!("let t0 = datetime(\"{t}\")"));
         let v = ev.ctx().verif_raw_global("t0");
@@ -176,7 +216,7 @@ pub fn check(rep: &mut Report) {
     let time_dim = defs.units["second"].dim.clone();
     let time_units: Vec<&UnitInfo> = defs.units.values().filter(|u| u.dim == time_dim).collect();
     let mut cases: Vec<(usize, Case)> = vec![];
-    for (ti, t) in INSTANTS.iter().enumerate() {
+    for (ti, t) in inst.iter().enumerate() {
         for u in &time_units {
             for m in MAGS {
                 let d = if m.starts_with('-') { format!("({m}) * {}", u.name) } else { format!("{m} * {}", u.name) };
@@ -215,7 +255,7 @@ pub fn check(rep: &mut Report) {
             }
         }
     }
-    rep.set("instants", json!(INSTANTS.len()));
+    rep.set("instants", json!(inst.len()));
     rep.set("time_units", json!(time_units.len()));
     rep.set("duration_magnitudes", json!(MAGS.len()));
     rep.set("range_errors_observed", json!(range_errors));
@@ -224,14 +264,14 @@ pub fn check(rep: &mut Report) {
     let zones: Vec<String> = jiff::tz::db().available().map(|n| n.as_str().to_string()).collect();
     rep.set("time_zones", json!(zones.len()));
     let zstep = rep.tier.pick(1usize, 1usize);
-    let zcases: Vec<(usize, &String)> = (0..INSTANTS.len()).flat_map(|ti| zones.iter().step_by(zstep).map(move |z| (ti, z))).collect();
+    let zcases: Vec<(usize, &String)> = (0..inst.len()).flat_map(|ti| zones.iter().step_by(zstep).map(move |z| (ti, z))).collect();
     let zouts: Vec<Result<(), String>> = par_map(
         zcases.len(),
         || Evaluator::new(base.clone()),
         |ev, i| {
             let (ti, z) = zcases[i];
             ev.reset();
-            let r = ev.eval(&format!("let tz0 = datetime(\"{}\") -> tz(\"{z}\")", INSTANTS[ti]));
+            let r = ev.eval(&format!("let tz0 = datetime(\"{}\") -> tz(\"{z}\")", inst[ti]));
             if let Some(p) = r.panic() {
                 return Err(format!("PANIC {} at {}", p.message, p.site()));
             }
@@ -256,7 +296,7 @@ pub fn check(rep: &mut Report) {
                 let r = ev.eval(&format!("let rt = datetime(format_datetime(\"{f}\", tz0))"));
                 if !r.is_ok() {
                     // years outside 0..9999 cannot be written by %Y in a re-readable way
-                    if INSTANTS[ti].starts_with('-') {
+                    if inst[ti].starts_with('-') {
                         continue;
                     }
                     return Err(format!("datetime(format_datetime(\"{f}\", t)) fails: {}", r.err_string().unwrap_or_default()));
@@ -284,14 +324,14 @@ pub fn check(rep: &mut Report) {
             Err(e) => {
                 if e.starts_with("PANIC") {
                     let site = e.split(" at ").last().unwrap_or("").to_string();
-                    rep.violation(format!("callsite:{site}"), format!("datetime(\"{}\") -> tz(\"{z}\"): {e}", INSTANTS[ti]), json!({"t": INSTANTS[ti], "zone": z}));
+                    rep.violation(format!("callsite:{site}"), format!("datetime(\"{}\") -> tz(\"{z}\"): {e}", inst[ti]), json!({"t": inst[ti], "zone": z}));
                 } else {
-                    rep.violation(format!("zone:{}|{z}", INSTANTS[ti]), format!("datetime(\"{}\") -> tz(\"{z}\"): {e}", INSTANTS[ti]), json!({"t": INSTANTS[ti], "zone": z}));
+                    rep.violation(format!("zone:{}|{z}", inst[ti]), format!("datetime(\"{}\") -> tz(\"{z}\"): {e}", inst[ti]), json!({"t": inst[ti], "zone": z}));
                 }
             }
         }
     }
-    rep.rule = "instant alphabet (epoch, leap days, range edges, sub-second parts, both sides of DST changes in 5 zones) x every prelude unit of dimension Time x magnitude alphabet for the arithmetic laws; instant alphabet x every zone of the time-zone database for zone conversion and format/parse round trips; reference = integer nanoseconds since the epoch; non-trivial = (instant, duration) pairs".into();
+    rep.rule = "instant alphabet (epoch, leap days, range edges, sub-second parts, both sides of DST changes in 5 zones; thorough: + 9 offsets around every DST transition of 2011-2012 and 2023-2024 in 12 zones) x every prelude unit of dimension Time x magnitude alphabet for the arithmetic laws; instant alphabet x every zone of the time-zone database for zone conversion and format/parse round trips; reference = integer nanoseconds since the epoch; non-trivial = (instant, duration) pairs".into();
     rep.assumptions = vec![
         "the instant denoted by a parsed datetime is read from the value itself (jiff timestamp); UTC instants are cross-checked against a proleptic Gregorian day count".into(),
         "tolerance: 1 ns rounding + the f64 resolution of the duration at its magnitude".into(),
